@@ -90,3 +90,68 @@ CHECKS["C18"] = {
         {"name": "TestMasterHistory", "quick": 3000, "thorough": {"checks": 40000, "shards": 16}},
     ],
 }
+
+CHECKS["C05"] = {
+    "pkg": "./c05/",
+    "level": "fault_enumeration",
+    "technique": "stateful property-based testing (rapid) over the real mmap queue with self-describing messages, crash images between the individual stores of an append, overlapping appenders at the reserve/publish seam, plus a goroutine stress variant",
+    "rule": ("rapid state machine on queue.NewQueue: put (8 B..3 MiB), overlappingPut (appender B runs complete Puts while A sits between reserving space and publishing its sequence), crashPut "
+             "(directory image before/after each WriteBytes/PutUint64/PutUint32 of the append, each image reopened with NewQueue, scanned and appended to), reopen, ack, gc; after every step every sequence in "
+             "(ack, appended] must return the exact bytes of exactly one appended message, the seq->message mapping never changes, appended == successful appends - 1. TestRollOver: 30-70 MiB messages crossing the "
+             "128 MiB data page. TestConcurrentAppenders: 2-6 goroutines. non-trivial = history with a recovered crash image, or an overlapping append followed by a reopen; each recovered crash point counts as one case; "
+             "distinct = (history, image tag) hash"),
+    "level_text": ("Fault enumeration at store granularity (every store of an append in the thorough tier, a generated sample of 4 per append in the quick tier) over generated histories, "
+                   "plus exploration of appender overlap at the one seam the implementation has and an unsystematic goroutine variant with an interleaving-independent oracle."),
+    "level_note": "Process-crash model for MAP_SHARED pages (stores survive in program order). Overlap is driven through a goroutine with a 3 ms rendezvous window, so the schedule of that action is best-effort deterministic; the oracle does not depend on it.",
+    "assumptions": ["messages are >= 8 bytes (self-describing id)", "data page size is the 128 MiB constant", "crash = process death"],
+    "tests": [
+        {"name": "TestQueueHistory", "quick": 100, "thorough": {"checks": 400, "shards": 14}},
+        {"name": "TestRollOver", "quick": 2, "thorough": {"checks": 10, "shards": 2}},
+        {"name": "TestConcurrentAppenders", "quick": {}, "thorough": {"race": True}},
+    ],
+}
+
+CHECKS["C14"] = {
+    "pkg": "./c14/",
+    "level": "exploration",
+    "technique": ("property-based testing (rapid) of every codec against independent reference models, state-machine reuse histories over pooled/held encoder and decoder objects, "
+                  "an independent reference implementation of the documented XOR format in both directions, native fuzz targets for the byte-level entry points"),
+    "rule": ("rapid-generated cases per codec, every case compared bit for bit with a reference model (bit string / slot->value map / sorted set / plain slices). "
+             "non-trivial = length >= 2 and (the value sequence forces a XOR window change, or the slot mask is sparse, or the packed/offset width is >= 3 bytes (>= 17 bits for delta), or the "
+             "encoder/decoder object had been used before (pool, held object, Reset), or - bitmap - a non-array or >= 2 containers, or - snappy - >= 2 rows / > 64 KiB / reused writer); "
+             "TestTSDReuseHistory = a stored block of >= 2 slots written by a reused encoder or read by a reused decoder; distinct = hash of the canonical rendering of values/masks/offsets/op history"),
+    "level_text": ("Generated-input exploration: per run ~0.5 M codec cases (all IEEE-754 classes incl. NaN payloads, +-0, subnormals, +-Inf; empty/dense/sparse slot masks with start offsets, whole-family blocks "
+                   "of up to 3600 slots; offsets up to 2^32-1 with real GetBlock slices for every width 1..4; array/bitmap/run roaring containers; snappy chunks across the 64 KiB block boundary) and reuse "
+                   "histories of ~30 steps each. Every read path production code uses on a block is run on every generated block and compared with the same model. The codecs are pure functions of input plus "
+                   "object state, so sampling inputs and histories is the appropriate level."),
+    "level_note": ("Trusted: math.Float64bits/frombits bit-preserving on amd64. Bitmap and snappy are thin wrappers over lindb/roaring and klauspost/compress: checked through lindb's wrapper API only. "
+                   "DeltaBitPacking, TSDStreamWriter/Reader, TSDDecoder.Seek have no production caller on this tree: checked against their documented contract only (Seek / out-of-order GetValue with a weak oracle)."),
+    "assumptions": [
+        "slot blocks end at or below slot 65534 (a family holds at most 3600 slots)",
+        "callers copy Bytes() before touching the encoder again and consume Uncompress() output before the next call (all production callers do)",
+        "offsets in [0, 2^32-1]; 64-bit int",
+        "only well-formed encoder output is decoded for the round-trip claims; corrupted input is only checked for 'rejected or harmless' in the fuzz targets",
+    ],
+    "tests": [
+        {"name": "TestBitStream", "quick": 50000, "thorough": {"checks": 500000, "shards": 4}},
+        {"name": "TestStreamRoundTrip", "quick": 50000, "thorough": {"checks": 500000, "shards": 2}},
+        {"name": "TestStreamTailUvarint", "quick": 20000, "thorough": {"checks": 200000, "shards": 1}},
+        {"name": "TestXORRoundTrip", "quick": 50000, "thorough": {"checks": 500000, "shards": 4}},
+        {"name": "TestXORDecoderDocumentedFormat", "quick": 50000, "thorough": {"checks": 500000, "shards": 2}},
+        {"name": "TestTSDBlock", "quick": 100000, "thorough": {"checks": 1000000, "shards": 8}},
+        {"name": "TestTSDReuseHistory", "quick": 20000, "thorough": {"checks": 200000, "shards": 16}},
+        {"name": "TestTSDStream", "quick": 30000, "thorough": {"checks": 300000, "shards": 2}},
+        {"name": "TestDeltaBitPacking", "quick": 50000, "thorough": {"checks": 500000, "shards": 4}},
+        {"name": "TestZigZag", "quick": 5000, "thorough": {"checks": 50000, "shards": 1}},
+        {"name": "TestFixedOffset", "quick": 50000, "thorough": {"checks": 500000, "shards": 4}},
+        {"name": "TestFixedOffsetUnsorted", "quick": 5000, "thorough": {"checks": 50000, "shards": 1}},
+        {"name": "TestBitmapCodec", "quick": 10000, "thorough": {"checks": 100000, "shards": 8}},
+        {"name": "TestSnappyChunk", "quick": 5000, "thorough": {"checks": 50000, "shards": 8}},
+    ],
+    "fuzz": [
+        {"name": "FuzzTSDBlock", "seconds": 60},
+        {"name": "FuzzBitStream", "seconds": 60},
+        {"name": "FuzzFixedOffsetUnmarshal", "seconds": 60},
+        {"name": "FuzzSnappyUncompress", "seconds": 60},
+    ],
+}
